@@ -8,8 +8,10 @@ import (
 	"fmt"
 	"io"
 	"log"
+	"math/rand"
 	"net"
 	"net/netip"
+	"runtime"
 	"sort"
 	"strings"
 	"testing"
@@ -100,12 +102,16 @@ func tallyMetric(mm *Metrics, name string) string {
 	return verifh.List(out)
 }
 
-func runListenScenario(t *testing.T, id string, monitor bool, script []scriptRead, tags []string) verifh.Case {
+func runListenScenario(t *testing.T, id string, monitor bool, script []scriptRead, tags []string) []verifh.Case {
 	var (
 		answers           []string
 		invalid, received string
 		running           bool
 		answersJ          []string
+		t0, seed, hz      int64
+		allWrites         []vWrite
+		cntUni, cntMulti  float64
+		maxDepth, depth0  int
 	)
 	synctest.Test(t, func(t *testing.T) {
 		conn := newVConn()
@@ -124,8 +130,20 @@ func runListenScenario(t *testing.T, id string, monitor bool, script []scriptRea
 		} else {
 			task = NewAdvertiser(cctx, cfg, d, nil, func() bool { return false })
 		}
+		// the listener's stack must not grow with the number of messages it has skipped
+		conn.onRead = func(n int) {
+			var pcs [512]uintptr
+			d := runtime.Callers(0, pcs[:])
+			if n == 1 {
+				depth0 = d
+			}
+			if d > maxDepth {
+				maxDepth = d
+			}
+		}
 		ctx, cancel := context.WithCancel(context.Background())
 		done := make(chan error, 1)
+		seed, t0 = time.Now().UnixNano(), vNow()
 		go func() { done <- task.Run(ctx) }()
 		synctest.Wait()
 		// one read at a time, 600 ms apart: an answer (random delay < 500 ms) is on the wire before the
@@ -148,6 +166,10 @@ func runListenScenario(t *testing.T, id string, monitor bool, script []scriptRea
 				answersJ = append(answersJ, w.Dst.String())
 			}
 		}
+		hz = vNow()
+		allWrites = conn.snapshot()
+		cntUni = metricVal(mm, "corerad_advertiser_router_advertisements_total", "interface=v0,type=unicast")
+		cntMulti = metricVal(mm, "corerad_advertiser_router_advertisements_total", "interface=v0,type=multicast")
 		invalid = tallyMetric(mm, "corerad_messages_received_invalid_total")
 		if monitor {
 			received = tallyMetric(mm, "corerad_monitor_messages_received_total")
@@ -170,13 +192,53 @@ func runListenScenario(t *testing.T, id string, monitor bool, script []scriptRea
 	for _, s := range script {
 		sc = append(sc, s.coq())
 	}
-	return verifh.Case{
+	c1 := verifh.Case{
 		ID:       id,
 		Coq:      verifh.App("mkL9", verifh.B(monitor), verifh.List(sc), verifh.List(answers), invalid, received, verifh.B(running)),
 		Input:    map[string]any{"monitor": monitor, "script": script},
 		Observed: map[string]any{"answers": answersJ, "invalid": invalid, "received": received, "running": running},
 		Tags:     tags,
 	}
+	if maxDepth > depth0+8 {
+		c1.ImplViolation = fmt.Sprintf("the listener's stack grew from %d to %d frames while reading the script", depth0, maxDepth)
+	}
+	cases := []verifh.Case{c1}
+	if !monitor && running {
+		// the same run as a scheduler case (Corr.C07): every transmission, multicast ones included, must be
+		// explained by the periodic loop and the VALID solicitations alone
+		p := rand.New(rand.NewSource(seed))
+		var loopDraws, evs []string
+		for i := 0; i < 8; i++ {
+			loopDraws = append(loopDraws, verifh.Z(p.Int63n(int64(600*time.Second-200*time.Second))))
+		}
+		p = rand.New(rand.NewSource(seed))
+		for k, s := range script {
+			if s.Kind != "msg" || s.Typ != 133 || s.Hop != 255 {
+				continue
+			}
+			at := t0 + int64(k)*int64(600*time.Millisecond)
+			if s.Src == 0 {
+				evs = append(evs, verifh.Pair(verifh.Z(at), "ReqMulti"))
+			} else {
+				evs = append(evs, verifh.Pair(verifh.Z(at), verifh.App("ReqUni", verifh.AddrN(srcAddr(s.Src)), verifh.Z(p.Int63n(maxRADelay.Nanoseconds())))))
+			}
+		}
+		sort.SliceStable(allWrites, func(i, j int) bool { return allWrites[i].Begin < allWrites[j].Begin })
+		var os []string
+		for _, w := range allWrites {
+			os = append(os, verifh.Pair(verifh.Z(w.Begin), verifh.AddrN(w.Dst)))
+		}
+		cases = append(cases, verifh.Case{
+			ID:   id + "#run",
+			Corr: "Corr.C07",
+			Coq: verifh.App("mkRun", "false", verifh.Z(int64(200*time.Second)), verifh.Z(int64(600*time.Second)), verifh.Z(t0),
+				verifh.List(loopDraws), verifh.List(evs), verifh.Z(hz+1), verifh.List(os),
+				verifh.Z(int64(cntUni)), verifh.Z(int64(cntMulti)), verifh.Z(int64(len(evs)))),
+			Input: map[string]any{"monitor": monitor, "script": script, "view": "all transmissions"},
+			Tags:  append(append([]string(nil), tags...), "view:scheduler"),
+		})
+	}
+	return cases
 }
 
 // TestVerifC09 feeds scripted read sequences (every hop limit, every message type, runs of invalid
@@ -189,8 +251,10 @@ func TestVerifC09(t *testing.T) {
 	emit := func(name string, monitor bool, script []scriptRead, tags ...string) {
 		n++
 		id := fmt.Sprintf("%s-%d", name, n)
-		if out.Wants(id) {
-			out.Emit(runListenScenario(t, id, monitor, script, append(tags, fmt.Sprintf("monitor:%v", monitor))))
+		if out.Wants(id) || out.Wants(id+"#run") {
+			for _, c := range runListenScenario(t, id, monitor, script, append(tags, fmt.Sprintf("monitor:%v", monitor))) {
+				out.Emit(c)
+			}
 		}
 	}
 	msg := func(typ, hop, src int) scriptRead { return scriptRead{Kind: "msg", Typ: typ, Hop: hop, Src: src} }
